@@ -2,7 +2,7 @@
 import ast
 
 from sa.astutil import (call_name, calls_in, dotted, norm, walk_no_nested, last_attr,
-                        str_consts)
+                        str_consts, facts_at)
 from sa.loader import AnalysisError
 from sa.canon import canon
 from sa.tables import Cfg
@@ -215,8 +215,6 @@ def run(ctx):
                    key, ln, len(vals), i + 1), mod, add)
     exempt = {
         '': 'base class Group, never instantiated by a classifier',
-        'BBN': 'backbone groups are filtered out of the side-chain pair loop',
-        'BBC': 'backbone groups are filtered out of the side-chain pair loop',
         'LG': 'marvin ligand typing only (unreachable under the shipped file)',
         'ALG': 'marvin ligand typing only (unreachable under the shipped file)',
         'BLG': 'marvin ligand typing only (unreachable under the shipped file)',
@@ -242,14 +240,51 @@ def run(ctx):
     # exemptions are justified by code shape
     cc = prog.mod('conformation_container')
     gs = cc.func('ConformationContainer.get_sidechain_groups')
-    ctx.ob('C18.R4', 'exempt:BB-filtered', "'BB' not in group.type" in norm(gs),
-           'get_sidechain_groups drops BBN/BBC groups', cc, gs)
+    ctx.ob('C18.R4', 'backbone-types:filtered-from-pair-loop', "'BB' not in group.type" in norm(gs),
+           'get_sidechain_groups drops BBN/BBC groups (their rows are all "-": no pairwise interaction)',
+           cc, gs)
+    for bb in ('BBN', 'BBC'):
+        row = [vals for _ln, key, vals in rows if key == bb]
+        ctx.ob('C18.R4', 'backbone-types:row-without-interaction:' + bb,
+               len(row) == 1 and set(row[0]) == {'-'},
+               'the %s row defines "no interaction" for every pair' % bb, mod, add)
     ions = cfg.get('ions')
     pkas = cfg.get('model_pkas')
     ctx.ob('C18.R4', 'exempt:ions-not-titratable', not (set(ions) & set(pkas)),
            'no ion residue name is also a model-pKa key (overlap: %s)' % sorted(set(ions) & set(pkas)),
            mod, add)
     ctx.need('C18.R4', 30)
+    # "for any parameter file": the file that is named is the file that is read.
+    # A name is looked up in the package directory only when it does not denote
+    # a file as given - otherwise a user's own propka.cfg in the working
+    # directory is silently replaced by the shipped one
+    imod = prog.mod('input')
+    rpf = imod.func('read_parameter_file')
+    fparam = [a.arg for a in rpf.args.args][0]
+    rcan = canon(rpf)
+    opens = [c for c in calls_in(rpf, nested=False) if (call_name(c) or '').split('.')[-1] in (
+        'open_file_for_reading', 'open')]
+    packaged, given = [], []
+    for c in opens:
+        t = rcan.text(c.args[0]) if c.args else ''
+        (packaged if '__file__' in t else given).append(c)
+
+    def after_given_failed(c):
+        for e, pol in facts_at(c, rpf):
+            t = rcan.text(e).replace(' ', '')
+            if not pol and fparam in t and any(k in t for k in ('.is_file()', '.exists()', 'isfile(', 'exists(')):
+                return True
+        from sa.astutil import ancestors
+        for anc in ancestors(c):
+            if isinstance(anc, ast.ExceptHandler):
+                tr = anc._parent
+                if any(x in given for st in tr.body for x in ast.walk(st)):
+                    return True
+        return False
+    ctx.ob('C18.R8', 'parameter-file:named-file-first', bool(given) and all(after_given_failed(c) for c in packaged),
+           'read_parameter_file opens the path as given (%d opening calls); the package directory is '
+           'tried only where that path is not a file (%d package-relative opening calls)'
+           % (len(given), len(packaged)), imod, packaged[0] if packaged else rpf)
 
     # ------------------------------------------------------------------ R5
     charge = cfg.get('charge')
